@@ -212,6 +212,26 @@ func genC17(t *rapid.T) *Case {
 				}
 				continue
 			}
+			if rapid.IntRange(0, 7).Draw(t, "schemeSwitch") == 0 {
+				// a scheme registered twice, once with a custom check and once plainly (directly or
+				// through a helper), in either order: the registration reflects the most recent call
+				sch := rapid.SampledFrom([]string{"http", "https", "mailto", "HTTP"}).Draw(t, "ssch")
+				custom := Op{Kind: "AllowURLSchemeWithCustomPolicy", Names: []string{sch}, Fn: rapid.SampledFrom([]int{0, 2, 3}).Draw(t, "ssfn"), ValRe: -1}
+				plain := Op{Kind: rapid.SampledFrom([]string{"AllowURLSchemes", "AllowStandardURLs", "AllowImages"}).Draw(t, "ssplain"), ValRe: -1}
+				if plain.Kind == "AllowURLSchemes" {
+					plain.Names = []string{sch}
+				}
+				ops := []Op{{Kind: "AllowAttrs", Attrs: []string{"href", "src"}, Scope: "els", Names: []string{"a", "img"}, ValRe: -1}, custom, plain}
+				if rapid.Bool().Draw(t, "ssorder") {
+					ops[1], ops[2] = ops[2], ops[1]
+				}
+				for _, op := range ops {
+					op := op
+					pols[pi].hist = append(pols[pi].hist, op)
+					c.Steps = append(c.Steps, Step{Kind: "apply", P: pi, Op: &op})
+				}
+				continue
+			}
 			op := genOp(t, rapid.SampledFrom(c17Kinds).Draw(t, "kind"), c17Opts)
 			pols[pi].hist = append(pols[pi].hist, op)
 			c.Steps = append(c.Steps, Step{Kind: "apply", P: pi, Op: &op})
